@@ -231,6 +231,14 @@ fn final_stats(case: &Value) -> Value {
 /// `profile`, `scripts` (`name`, `exit`, `env_bytes`, `sleep_ms`, `hang`), `binaries` (`pkg`,
 /// `binary_id`, `tests`), `test_threads`.
 fn real_run(case: &Value) -> Value {
+    let dir = unique_path("run").with_extension("d");
+    std::fs::create_dir_all(&dir).expect("scratch dir");
+    let out = real_run_in(case, &dir);
+    let _ = std::fs::remove_dir_all(&dir);
+    out
+}
+
+fn real_run_in(case: &Value, dir: &Utf8PathBuf) -> Value {
     use nextest_filtering::{CompiledExpr, EvalContext};
     use nextest_runner::{
         cargo_config::{CargoConfigs, EnvironmentMap},
@@ -245,8 +253,7 @@ fn real_run(case: &Value) -> Value {
     };
     use std::os::unix::fs::PermissionsExt;
 
-    let dir = unique_path("run").with_extension("d");
-    std::fs::create_dir_all(&dir).expect("scratch dir");
+    let dir = dir.clone();
     let log = dir.join("log");
     std::fs::write(&log, "").unwrap();
 
@@ -461,7 +468,6 @@ fn real_run(case: &Value) -> Value {
         FinalRunStats::Failed(RunStatsFailureKind::Test { .. }) => "failed-test",
         FinalRunStats::Cancelled(RunStatsFailureKind::Test { .. }) => "cancelled-test",
     };
-    let _ = std::fs::remove_dir_all(&dir);
     json!({
         "events": events,
         "log": log_lines,
